@@ -854,7 +854,7 @@ type phase struct {
 
 func main() {
 	log.Root().SetHandler(log.DiscardHandler())
-	r := vk.Start("C04", "model_checking")
+	r := vk.Start("C04", "fault_enumeration")
 	cfg := &config{r: r, crashes: true, powerLoss: true, sampleEvery: 1 << 30, samples: map[int]interface{}{}}
 
 	priv := crypto.GenPrivKeyEd25519FromSecret([]byte("v0"))
